@@ -11,9 +11,10 @@
     - rpki set.rs:133-138 ResourceSet::contains_asn
 
     Differences from the ROA code that matter: validation stops at the first
-    error (no collection); the event for a replaced definition is computed
-    against the definition stored *before the command* ([self.get]), not against
-    the copy that tracks the removals of the same command.
+    error (no collection). The event for a replaced definition is computed
+    against the working copy [all_aspas] as it is at that point of the request
+    (repaired tree f9940a57, finding F01a); the originally pinned tree compared
+    with the definition stored before the command ([self.get]): [*_pinned] below.
 
     No proofs in this file. *)
 From KV Require Import base.Tac conf.AMap conf.Roa.
@@ -97,30 +98,31 @@ Fixpoint aspa_removals (cur : aspas) (l : list N) : result (aspas * list aevent)
       else Err (ECustomerUnknown c)
   end.
 
-(** The event for an accepted definition (aspa.rs:146-180): compared with [self]. *)
+(** The event for an accepted definition (aspa.rs:142-185): the change relative to
+    [cur], the working copy before this definition is put into it. *)
 Definition diff_update (existing new : list N) : prov_update :=
   mkPU (filter (fun p => negb (memb N.eqb p existing)) new)
        (filter (fun p => negb (memb N.eqb p new)) existing).
 Definition pu_is_empty (u : prov_update) : bool :=
   match pu_added u, pu_removed u with [], [] => true | _, _ => false end.
-Definition def_events (self : aspas) (d : aspa_def) : list aevent :=
-  match aget self (ad_cust d) with
+Definition def_events (cur : aspas) (d : aspa_def) : list aevent :=
+  match aget cur (ad_cust d) with
   | None => [AEvAdded d]
   | Some existing =>
       let u := diff_update existing (ad_provs d) in
       if pu_is_empty u then [] else [AEvUpdated (ad_cust d) u]
   end.
 
-(** Second loop (aspa.rs:112-181). *)
-Fixpoint aspa_additions (res : resources) (self cur : aspas) (l : list aspa_def) : result (aspas * list aevent) aspa_err :=
+(** Second loop (aspa.rs:112-186). *)
+Fixpoint aspa_additions (res : resources) (cur : aspas) (l : list aspa_def) : result (aspas * list aevent) aspa_err :=
   match l with
   | [] => Ok (cur, [])
   | d :: r =>
       match check_def res d with
       | Some e => Err e
       | None =>
-          match aspa_additions res self (ainsert cur (ad_cust d) (ad_provs d)) r with
-          | Ok (m', evs) => Ok (m', def_events self d ++ evs)
+          match aspa_additions res (ainsert cur (ad_cust d) (ad_provs d)) r with
+          | Ok (m', evs) => Ok (m', def_events cur d ++ evs)
           | Err e => Err e
           end
       end
@@ -130,7 +132,32 @@ Definition aspa_process_updates (res : resources) (m : aspas) (u : aspa_updates)
   match aspa_removals m (au_remove u) with
   | Err e => Err e
   | Ok (m1, ev1) =>
-      match aspa_additions res m m1 (au_add u) with
+      match aspa_additions res m1 (au_add u) with
+      | Err e => Err e
+      | Ok (m2, ev2) => Ok (m2, ev1 ++ ev2)
+      end
+  end.
+
+(** The originally pinned tree: events computed against [self], the definitions
+    stored before the command. *)
+Fixpoint aspa_additions_pinned (res : resources) (self cur : aspas) (l : list aspa_def) : result (aspas * list aevent) aspa_err :=
+  match l with
+  | [] => Ok (cur, [])
+  | d :: r =>
+      match check_def res d with
+      | Some e => Err e
+      | None =>
+          match aspa_additions_pinned res self (ainsert cur (ad_cust d) (ad_provs d)) r with
+          | Ok (m', evs) => Ok (m', def_events self d ++ evs)
+          | Err e => Err e
+          end
+      end
+  end.
+Definition aspa_process_updates_pinned (res : resources) (m : aspas) (u : aspa_updates) : result (aspas * list aevent) aspa_err :=
+  match aspa_removals m (au_remove u) with
+  | Err e => Err e
+  | Ok (m1, ev1) =>
+      match aspa_additions_pinned res m m1 (au_add u) with
       | Err e => Err e
       | Ok (m2, ev2) => Ok (m2, ev1 ++ ev2)
       end
@@ -189,14 +216,6 @@ Definition same_provs (a b : option (list N)) : Prop :=
   | None, None => True
   | _, _ => False
   end.
-
-(** The requests outside finding F01a: no customer is both removed and
-    (re)defined, and no customer is defined twice. *)
-Definition aspa_simple_request (u : aspa_updates) : Prop :=
-  (forall c, In c (au_remove u) -> ~ In c (map ad_cust (au_add u))) /\ NoDup (map ad_cust (au_add u)).
-Definition aspa_simple_request_b (u : aspa_updates) : bool :=
-  forallb (fun c => negb (memb N.eqb c (map ad_cust (au_add u)))) (au_remove u)
-  && negb (has_dup N.eqb (map ad_cust (au_add u))).
 
 (** Executable: sorted copy without repetitions, for comparing provider sets. *)
 Fixpoint dedup_sorted (l : list N) : list N :=
